@@ -240,7 +240,7 @@ Section HistR.
   Definition in_grid (s : list R * R) : bool := index_ok (h_nx c) (sample_bin s).
 
   Definition eligible_samples (vector_mode : bool) (h : list hist_in) : list (list R * R) :=
-    flat_map (fun i => if vector_mode || can_accumulate c i then hi_vals i else []) h.
+    flat_map (fun i => if can_accumulate c i then hi_vals i else []) h.
 
   (* weight landing on address a *)
   Definition weight_at (a : nat) (s : list R * R) : R :=
@@ -293,7 +293,7 @@ Section HistR.
     revert data; induction h as [|i h IH]; intros data Hlen; cbn [fold_left eligible_samples flat_map map lsum].
     - split; auto; lra.
     - unfold hist_step at 2 4.
-      destruct (vm || can_accumulate c i) eqn:E.
+      destruct (can_accumulate c i) eqn:E.
       + destruct (acc_samples_nth (hi_vals i) data a Hlen) as [H1 H2].
         destruct (IH (fold_left (acc_sample Rops c) (hi_vals i) data)) as [H3 H4]; [congruence|].
         rewrite H3, H1, H4, H2. split; auto.
@@ -341,7 +341,7 @@ Section HistR.
     { induction h as [|i h' IH]; intros data Hlen; cbn [fold_left eligible_samples flat_map map lsum].
       - lra.
       - unfold hist_step at 2.
-        destruct (vm || can_accumulate c i) eqn:E.
+        destruct (can_accumulate c i) eqn:E.
         + destruct (hist_total_gen (hi_vals i) data Hlen) as [H1 H2].
           rewrite IH by congruence. rewrite H1, map_app, lsum_app.
           fold (eligible_samples vm h'). lra.
